@@ -146,7 +146,13 @@ fn(OH, 'compose', self_ty='OpenHypergraph', nth=0, status='P', props=['C01', 'C0
    requires=['self.wf()', 'other.wf()', 'fits_open(*self, *other)', 'lawful_clone::<O>()', 'lawful_clone::<A>()', 'lawful_eq::<O>()'],
    ensures=[('C01.defined', 'r.is_some() <==> self.tgt_type() =~= other.src_type()'),
             ('C01.pushout', 'r.is_some() ==> is_pushout(*self, *other, r.unwrap())'),
-            ('C05.compose-wf', 'r.is_some() ==> r.unwrap().wf()')],
+            ('C05.compose-wf', 'r.is_some() ==> r.unwrap().wf()'),
+            ('C05.compose-type', 'r.is_some() ==> r.unwrap().src_type() =~= self.src_type() && r.unwrap().tgt_type() =~= other.tgt_type()'),
+            ('C05.compose-sizes', '''r.is_some() ==> ({ let o = r.unwrap();
+                o.h.w@.len() <= self.h.w@.len() + other.h.w@.len() && o.h.x@.len() == self.h.x@.len() + other.h.x@.len()
+                && o.h.s.values.table@.len() == self.h.s.values.table@.len() + other.h.s.values.table@.len()
+                && o.h.t.values.table@.len() == self.h.t.values.table@.len() + other.h.t.values.table@.len()
+                && o.s.table@.len() == self.s.table@.len() && o.t.table@.len() == other.t.table@.len() })''')],
    proofs=[('after:let q = q_lhs.coequalizer(&q_rhs)', '''let nf = self.h.w@.len() as int; let ng = other.h.w@.len() as int;
             assert(q_lhs.table@ =~= glue_left(*self));
             assert(q_rhs.table@ =~= glue_right(*self, *other));
@@ -174,7 +180,13 @@ fn(OH, 'compose', self_ty='OpenHypergraph', nth=0, status='P', props=['C01', 'C0
             assert(forall|i: int| 0 <= i < self.s.table@.len() ==> out.s.table@[i] == qq[self.s.table@[i] as int]);
             assert(forall|i: int| 0 <= i < other.t.table@.len() ==> out.t.table@[i] == qq[nf + other.t.table@[i]]);
             assert(is_quotient_of_jux(*self, *other, out, q.table@, q.target as int));
-            assert(is_coeq(q.table@, q.target as int, glue_left(*self), glue_right(*self, *other), nf + ng));''')])
+            assert(is_coeq(q.table@, q.target as int, glue_left(*self), glue_right(*self, *other), nf + ng));
+            assert forall|i: int| 0 <= i < self.s.table@.len() implies out.src_type()[i] == self.src_type()[i] by {
+                assert(out.h.w@[qq[self.s.table@[i] as int] as int] == jux_label(*self, *other, self.s.table@[i] as int));
+            }
+            assert forall|i: int| 0 <= i < other.t.table@.len() implies out.tgt_type()[i] == other.tgt_type()[i] by {
+                assert(out.h.w@[qq[nf + other.t.table@[i]] as int] == jux_label(*self, *other, nf + other.t.table@[i]));
+            }''')])
 endgroup()
 
 raw(r'''
@@ -203,7 +215,8 @@ fn(OH, 'tensor', trait='Monoidal', self_ty='OpenHypergraph', status='P', props=[
                 && (forall|i: int| 0 <= i < self.t.table@.len() ==> r.t.table@[i] == self.t.table@[i])
                 && (forall|i: int| self.t.table@.len() <= i < self.t.table@.len() + other.t.table@.len() ==> r.t.table@[i] == self.h.w@.len() + other.t.table@[i - self.t.table@.len()])
                 && r.s.target == self.h.w@.len() + other.h.w@.len() && r.t.target == self.h.w@.len() + other.h.w@.len()'''),
-            ('C05.tensor-wf', 'r.wf()')])
+            ('C05.tensor-wf', 'r.wf()'),
+            ('C05.tensor-type', 'lawful_clone::<O>() ==> r.src_type() =~= self.src_type() + other.src_type() && r.tgt_type() =~= self.tgt_type() + other.tgt_type()')])
 # impl SymmetricMonoidal
 fn(OH, 'twist', trait='SymmetricMonoidal', self_ty='OpenHypergraph', status='P', props=['C04', 'C05', 'C03'],
    rules={'ops': ['add'], 'subst': {'Self::Object': 'SemifiniteFunction<O>'}},
@@ -250,13 +263,20 @@ fn(OH, 'identity', trait='Arrow', self_ty='OpenHypergraph', status='P', props=['
 fn(OH, 'compose', trait='Arrow', self_ty='OpenHypergraph', status='P', props=['C01', 'C05'], rename='arrow_compose',
    requires=['self.wf()', 'other.wf()', 'fits_open(*self, *other)', 'lawful_clone::<O>()', 'lawful_clone::<A>()', 'lawful_eq::<O>()'],
    ensures=[('C01.arrow-defined', 'r.is_some() <==> self.tgt_type() =~= other.src_type()'),
-            ('C01.arrow-pushout', 'r.is_some() ==> is_pushout(*self, *other, r.unwrap()) && r.unwrap().wf()')])
+            ('C01.arrow-pushout', 'r.is_some() ==> is_pushout(*self, *other, r.unwrap()) && r.unwrap().wf()'),
+            ('C05.arrow-compose-type', 'r.is_some() ==> r.unwrap().src_type() =~= self.src_type() && r.unwrap().tgt_type() =~= other.tgt_type()'),
+            ('C05.arrow-compose-sizes', '''r.is_some() ==> ({ let o = r.unwrap();
+                o.h.w@.len() <= self.h.w@.len() + other.h.w@.len() && o.h.x@.len() == self.h.x@.len() + other.h.x@.len()
+                && o.h.s.values.table@.len() == self.h.s.values.table@.len() + other.h.s.values.table@.len()
+                && o.h.t.values.table@.len() == self.h.t.values.table@.len() + other.h.t.values.table@.len()
+                && o.s.table@.len() == self.s.table@.len() && o.t.table@.len() == other.t.table@.len() })''')])
 endgroup()
 
 opimpl(OH, 'Shr', 'OpenHypergraph', 'oh_shr', 'f', "&'a OpenHypergraph<O, A>", "&'b OpenHypergraph<O, A>", 'Option<OpenHypergraph<O, A>>',
        req=['f.wf()', 'rhs.wf()', 'fits_open(*f, *rhs)', 'lawful_clone::<O>()', 'lawful_clone::<A>()', 'lawful_eq::<O>()'],
-       ens=['r.is_some() <==> f.tgt_type() =~= rhs.src_type()', 'r.is_some() ==> is_pushout(*f, *rhs, r.unwrap()) && r.unwrap().wf()'],
-       labels=['C01.shr-defined', 'C01.shr-pushout'],
+       ens=['r.is_some() <==> f.tgt_type() =~= rhs.src_type()', 'r.is_some() ==> is_pushout(*f, *rhs, r.unwrap()) && r.unwrap().wf()',
+            'r.is_some() ==> r.unwrap().src_type() =~= f.src_type() && r.unwrap().tgt_type() =~= rhs.tgt_type()'],
+       labels=['C01.shr-defined', 'C01.shr-pushout', 'C05.shr-type'],
        impl_generics="<'a, 'b, O: Clone + PartialEq, A: Clone>", fn_generics='O: Clone + PartialEq, A: Clone', props=['C01'])
 opimpl(OH, 'BitOr', 'OpenHypergraph', 'oh_bitor', 'f', "&'a OpenHypergraph<O, A>", "&'b OpenHypergraph<O, A>", 'OpenHypergraph<O, A>',
        req=['f.wf()', 'rhs.wf()', 'fits_open(*f, *rhs)'],
